@@ -76,6 +76,22 @@ func genC12(r *simrt.Rand, tier string, idx uint64) *Plan {
 		cp.Ops = append(cp.Ops, Op{Kind: "wait"})
 		p.Clients = append(p.Clients, cp)
 	}
+	// streams beside the calls: several messages written in a row, so that a backlog builds up in
+	// front of the handler. (NoCopy is specified for codecs that do not alias their input: with the
+	// code/pb body codecs a decoded stream message aliases a buffer NoCopy has already recycled, so
+	// streams go with NoCopy only under the json body codec.)
+	nocopy := false
+	for _, sv := range p.Servers {
+		nocopy = nocopy || sv.NoCopy
+	}
+	for _, c := range p.Conns {
+		nocopy = nocopy || c.NoCopy
+	}
+	if p.Codec != "bytes" && (p.Codec == "json" || !nocopy) && r.Chance(1, 2) {
+		for k := 0; k < 1+r.Intn(2); k++ {
+			genStreamClient(r, p, r.Intn(len(p.Conns)), &big)
+		}
+	}
 	return p
 }
 
@@ -159,6 +175,36 @@ func checkC12(w *World, run *simrt.Run) {
 	}
 	if !same {
 		w.Violate("C12.executions", "executed-requests-differ:"+cfgClass(w.P), fmt.Sprintf("reference executed %d handlers, %s executed %d (ids %v vs %v)", len(a), cfgDesc(w.P), len(b), a, b))
+	}
+	// streams: what each end received is the same in both configurations and is what was written
+	for k, sr := range w.Streams {
+		if k >= len(ref.Streams) {
+			break
+		}
+		rr := ref.Streams[k]
+		desc := func(x *StreamRec) string {
+			return fmt.Sprintf("opened=%v handler got %v, client got %v, foreign=%d damaged=%d", x.Opened, x.SGot, x.CGot, x.Foreign, x.BadPayload)
+		}
+		sameIDs := func(a, b []uint64) bool {
+			if len(a) != len(b) {
+				return false
+			}
+			for i := range a {
+				if a[i] != b[i] {
+					return false
+				}
+			}
+			return true
+		}
+		// (the handler may not have read the client's last messages yet when the run ends, and the
+		// client reads exactly as many messages as the plan says: prefixes on those sides)
+		if !rr.Opened || !isPrefix(rr.SGot, rr.CSent) || !isPrefix(rr.CGot, rr.SSent) || rr.Foreign > 0 || rr.BadPayload > 0 {
+			w.Violate("C12.reference", "reference-configuration-deviates-from-plan:stream", fmt.Sprintf("stream %d under the reference configuration: %s (client wrote %v, handler wrote %v)", k, desc(rr), rr.CSent, rr.SSent))
+		}
+		if sr.Opened != rr.Opened || !(isPrefix(sr.SGot, rr.SGot) || isPrefix(rr.SGot, sr.SGot)) || !isPrefix(sr.SGot, sr.CSent) || !sameIDs(sr.CGot, rr.CGot) || sr.Foreign != rr.Foreign || sr.BadPayload != rr.BadPayload {
+			w.Violate("C12.transcript", "stream-outcome-differs:"+cfgClass(w.P), fmt.Sprintf("stream %d: reference: %s; under %s: %s", k, desc(rr), cfgDesc(w.P), desc(sr)))
+		}
+		w.Probe("stream-pair-compared")
 	}
 	w.Probe("configuration-pair-compared")
 	w.Probe("cfg:" + w.P.Codec + "/" + w.P.Header)
